@@ -21,13 +21,15 @@ if ! git -C "$S/repo" apply "$D/patch.diff" 2>/dev/null && ! git -C "$S/repo" ap
 rsync -a --delete --exclude target --exclude .git --exclude scratch --exclude replays --exclude seeded "$V/" "$S/verif/"
 sed -i "s#path = \"/repo\"#path = \"$S/repo\"#" "$S/verif/harness/Cargo.toml" "$S/verif/harness-sched/Cargo.toml"
 mkdir -p "$S/verif/scratch"
-caught=""; ran=""
+caught=""; ran=""; broken=""
 for c in $CHECKS; do
   out="$(VH_REPO="$S/repo" "$S/verif/check" "$c" --tier "$TIER" 2>&1)"; rc=$?
   ran="$ran $c"
   if [ $rc -eq 1 ] && echo "$out" | grep -q "^VIOLATION property=$c"; then caught="$caught $c"; fi
-  if [ $rc -eq 2 ]; then caught="$caught $c(machinery-exit)"; fi
+  # a machinery exit is not a verdict: it never counts as catching the change
+  if [ $rc -eq 2 ]; then broken="$broken $c"; fi
   echo "$out" | grep -E "^VIOLATION|why|^C[0-9]+ |machinery|panicked" | head -6 | cut -c1-400 | sed "s|^|    [$ID $c rc=$rc] |"
 done
 git -C /repo worktree remove --force "$S/repo"
-if [ -n "$caught" ]; then echo "RESULT $ID: CAUGHT by$caught (ran:$ran)"; else echo "RESULT $ID: MISSED (ran:$ran)"; fi
+[ -n "$broken" ] && broken=" MACHINERY-EXIT in$broken"
+if [ -n "$caught" ]; then echo "RESULT $ID: CAUGHT by$caught$broken (ran:$ran)"; else echo "RESULT $ID: MISSED$broken (ran:$ran)"; fi
